@@ -104,6 +104,8 @@ pub struct SimState {
     /// Single-step mode: signalled when the scheduler claims a task.
     pub step_tx: Option<std::sync::mpsc::Sender<()>>,
     pub tasks_claimed: u64,
+    /// Storage key of the task the scheduler claimed last.
+    pub last_task: String,
 }
 
 const ONE_OFF_KEYS: usize = 48;
@@ -129,6 +131,7 @@ impl SimState {
             fatals: Vec::new(),
             step_tx: None,
             tasks_claimed: 0,
+            last_task: String::new(),
         }
     }
 
@@ -303,6 +306,7 @@ impl Hooks for SimHooks {
             st.kv_mutations += 1;
             if op == "move_value" && scope == Some("pending") {
                 st.tasks_claimed += 1;
+                st.last_task = key.unwrap_or("").to_string();
                 if let Some(tx) = &st.step_tx {
                     let _ = tx.send(());
                 }
